@@ -362,6 +362,76 @@ def locView (isMin : Bool) (mA : Int → Int) (vA : View) (mB : Int → Int) (vB
   let fv := mkFiltV (fun x => x != 0) vA mB vB .nearest true
   markLoop (shapeSize vA.shape) fun i => locInner isMin (readIter mA vA i) (fv.neigh 0 mA (iterPtr vA i) i)
 
+/-! ### `fast_binary_dilate_erode_2d` with unwritten cells (F15 of the binary fast path of `py_erode` / `py_dilate`)
+
+The row loops of the fast path only ever *update* the output (`&=`, `|=`): they rely on the `std::copy` /
+`std::fill_n` in front of them having assigned every cell. Here the output starts unwritten (`none`) and an update of an
+unwritten cell leaves it unwritten, so that "every cell is assigned before the row loops" is a theorem
+(`C08_defined_everywhere_fast_binary`) instead of an assumption of the `Int`-celled loops of `Model/C01.lean`. -/
+
+/-- `out[j] &= b` on a cell that may still be unwritten -/
+def andIntoO (res : Array (Option Int)) (j : Nat) (b : Int) : Array (Option Int) :=
+  res.setIfInBounds j ((res.getD j none).map fun r => if r != 0 && b != 0 then 1 else 0)
+
+/-- `out[j] |= b` on a cell that may still be unwritten -/
+def orIntoO (res : Array (Option Int)) (j : Nat) (b : Int) : Array (Option Int) :=
+  res.setIfInBounds j ((res.getD j none).map fun r => if r != 0 || b != 0 then 1 else 0)
+
+/-- `C01.fastErodeRow` (border loop of `|dx|` iterations, main loop of `Nx − |dx|`) on `Option` cells -/
+def fastErodeRowO (data : Array Int) (Nx orow irow : Nat) (dx : Int) (res : Array (Option Int)) : Array (Option Int) :=
+  let n := Nx - dx.natAbs
+  if dx > 0 then
+    let res := (List.range dx.toNat).foldl (fun res i =>
+      andIntoO res (orow + (Nx - i - 1)) (data.getD (irow + (Nx - 1)) 0)) res
+    (List.range n).foldl (fun res i => andIntoO res (orow + i) (data.getD (irow + dx.toNat + i) 0)) res
+  else if dx < 0 then
+    let res := (List.range (-dx).toNat).foldl (fun res i => andIntoO res (orow + i) (data.getD irow 0)) res
+    (List.range n).foldl (fun res i => andIntoO res (orow + (-dx).toNat + i) (data.getD (irow + i) 0)) res
+  else
+    (List.range n).foldl (fun res i => andIntoO res (orow + i) (data.getD (irow + i) 0)) res
+
+/-- `C01.fastDilateRow` on `Option` cells -/
+def fastDilateRowO (data : Array Int) (Nx orow irow : Nat) (dx : Int) (res : Array (Option Int)) : Array (Option Int) :=
+  let n := Nx - dx.natAbs
+  if dx > 0 then
+    let res := (List.range dx.toNat).foldl (fun res i =>
+      orIntoO res (orow + (Nx - 1)) (data.getD (irow + (Nx - i - 1)) 0)) res
+    (List.range n).foldl (fun res i => orIntoO res (orow + dx.toNat + i) (data.getD (irow + i) 0)) res
+  else if dx < 0 then
+    let res := (List.range (-dx).toNat).foldl (fun res i => orIntoO res orow (data.getD (irow + i) 0)) res
+    (List.range n).foldl (fun res i => orIntoO res (orow + i) (data.getD (irow + (-dx).toNat + i) 0)) res
+  else
+    (List.range n).foldl (fun res i => orIntoO res (orow + i) (data.getD (irow + i) 0)) res
+
+/-- `fast_binary_dilate_erode_2d(res, array, Bc, is_erosion)`: `array` is a 2-D bool C-array read through its raw data
+pointer (`array.data()[k]`, `array.data(y)[x]`), `Bc` through `Bc.at(y, x)` (any strides); `res` is C-contiguous and
+starts unwritten, receives `std::copy(array.data(), array.data() + N, res.data())` (centre set) or
+`std::fill_n(res.data(), N, is_erosion)`, then the row loops of `Model/C01.lean` update it in place. -/
+def fastBinaryView (isErosion : Bool) (mA : Int → Int) (vA : View) (mB : Int → Int) (vB : View) : Array (Option Int) :=
+  match vA.shape, vB.shape with
+  | [Ny, Nx], [By, Bx] =>
+    let N := Ny * Nx
+    let data := ((List.range N).map fun (k : Nat) => mA (vA.base + (k : Int))).toArray
+    let bc := ((List.range (By * Bx)).map fun (k : Nat) => mB (vB.at [k / Bx, k % Bx])).toArray
+    let init : Array (Option Int) :=
+      if C01.centreSet [By, Bx] bc then pixelLoop N fun k => data.getD k 0
+      else pixelLoop N fun _ => if isErosion then 1 else 0
+    (List.range Ny).foldl (fun res y =>
+      (C01.fastPositions Nx [By, Bx] bc true).foldl (fun res d =>
+        if isErosion then fastErodeRowO data Nx (y * Nx) (C01.fastRow Ny y d.1 * Nx) d.2 res
+        else fastDilateRowO data Nx (C01.fastRow Ny y d.1 * Nx) (y * Nx) d.2 res) res) init
+  | _, _ => Array.replicate (shapeSize vA.shape) none
+
+/-- the dispatch of `py_erode`: `check_type<bool>(array) && PyArray_NDIM(array) == 2 && PyArray_ISCARRAY(array)` -/
+def pyErodeView (dt : DT) (mA : Int → Int) (vA : View) (mB : Int → Int) (vB : View) : Array (Option Int) :=
+  if dt.isBool && vA.shape.length == 2 && vA.carray then fastBinaryView true mA vA mB vB
+  else erodeView dt mA vA mB vB
+
+/-- the dispatch of `py_dilate` (same test) -/
+def pyDilateView (dt : DT) (mA : Int → Int) (vA : View) (mB : Int → Int) (vB : View) : Array (Option Int) :=
+  if dt.isBool && vA.shape.length == 2 && vA.carray then fastBinaryView false mA vA mB vB
+  else dilateView dt mA vA mB vB
+
 /-! ### convolve, rank_filter, mean_filter, template_match (`_convolve.cpp`), borders (`_labeled.cpp`) -/
 
 /-- inner loop of `convolve<T>`: `if (fiter.retrieve(iter, j, val)) cur += double(val)*fiter[j];` -/
@@ -534,8 +604,8 @@ def handle (a : Args) : String :=
     let m := (Mode.ofCode (a.nat "mode")).getD .nearest
     let ob := fun (r : Array (Option Bool)) => showOptInts (r.toList.map fun o => o.map fun b => if b then (1 : Int) else 0)
     match a.str "kernel" with
-    | "erode" => s!"out={showOptInts (erodeView dt mA vA mB vB).toList}"
-    | "dilate" => s!"out={showOptInts (dilateView dt mA vA mB vB).toList}"
+    | "erode" => s!"out={showOptInts (pyErodeView dt mA vA mB vB).toList}"
+    | "dilate" => s!"out={showOptInts (pyDilateView dt mA vA mB vB).toList}"
     | "locmax" => s!"out={ob (locView false mA vA mB vB)}"
     | "locmin" => s!"out={ob (locView true mA vA mB vB)}"
     | "convolve" => s!"out={showOptInts (convolveView 0 (fun x => x == 0) id m mA vA mB vB).toList}"
